@@ -2,6 +2,8 @@
 
 package evaluator
 
+import "strings"
+
 // C09 — basic values are copied, composites are shared.
 //
 // Alias scenarios: how the alias is made x how the update happens x where it
@@ -142,5 +144,162 @@ func ZZC09Alias() {
 	}
 	zzAssert(gs == want, "C09: basic values are copied and composites shared ("+sc.name+")")
 	zzReach("alias-ok")
+	zzWitness("end")
+}
+
+// ZZC09ErrCopies: the built-in err / errmsg are the only basic values the
+// evaluator updates in place, so every way of reading them (directly, through
+// a group, a call result, an element of a literal) crossed with every way of
+// storing a basic value must take a copy: a later conversion that flips them
+// never shows through what was stored.
+func ZZC09ErrCopies() {
+	type srcT struct{ expr, typ string }
+	srcs := []srcT{
+		{"err", "bool"}, {"(err)", "bool"}, {"(geterr)", "bool"}, {"(idb err)", "bool"}, {"[err][0]", "bool"}, {"{k:err}.k", "bool"}, {"(!(!err))", "bool"},
+		{"errmsg", "string"}, {"(errmsg)", "string"}, {"(getmsg)", "string"}, {"(ids errmsg)", "string"}, {"[errmsg][0]", "string"}, {"(errmsg+\"\")", "string"},
+	}
+	s := srcs[zzChoice("src", len(srcs))]
+	startFailed := zzChoice("start", 2) == 1 // err is true / errmsg is set when the value is taken, and reset afterwards
+	zero := "true"
+	if s.typ == "string" {
+		zero = "\"zero\""
+	}
+	pre := "func geterr:bool\n    return err\nend\nfunc getmsg:string\n    return errmsg\nend\nfunc idb:bool p:bool\n    return p\nend\nfunc ids:string p:string\n    return p\nend\n" +
+		"func keep p:" + s.typ + "\n    n := str2num FLIP\n    print \"kept\" p n\nend\n" +
+		"func keepv p:" + s.typ + "...\n    n := str2num FLIP\n    print \"kept\" p[0] n\nend\n" +
+		"func keepa p:any\n    n := str2num FLIP\n    print \"kept\" p n\nend\n" +
+		"func ret:" + s.typ + "\n    return " + s.expr + "\nend\n"
+	flip, flipVal := "\"zz\"", "0"
+	first := "n0 := str2num \"1\"\n"
+	if startFailed {
+		flip, flipVal = "\"1\"", "1"
+		first = "n0 := str2num \"zz\"\n"
+	}
+	pre = strings.ReplaceAll(pre, "FLIP", flip)
+	old := "false"
+	if s.typ == "string" {
+		old = ""
+	}
+	if startFailed {
+		old = "true"
+		if s.typ == "string" {
+			old = "str2num: cannot parse \"zz\""
+		}
+	}
+	mut := "n := str2num " + flip + "\n"
+	sink := zzChoice("sink", 14)
+	var body, want string
+	show := func(decl, obs string) {
+		body = decl + mut + "print \"kept\" " + obs + " n\n"
+	}
+	want = "print:kept " + old + " " + flipVal + "\n"
+	switch sink {
+	case 0:
+		show("y := "+s.expr+"\n", "y")
+	case 1:
+		show("y := "+zero+"\ny = "+s.expr+"\n", "y")
+	case 2:
+		show("c := ["+s.expr+"]\n", "c[0]")
+	case 3:
+		show("c := ["+zero+" "+s.expr+"]\n", "c[1]")
+	case 4:
+		show("c := {k:"+s.expr+"}\n", "c.k")
+	case 5:
+		show("c := ["+zero+"]\nc[0] = "+s.expr+"\n", "c[0]")
+	case 6:
+		show("c := {k:"+zero+"}\nc.k = "+s.expr+"\nc[\"j\"] = "+s.expr+"\n", "c.j")
+	case 7:
+		show("c:any\nc = "+s.expr+"\n", "c")
+	case 8:
+		body = "keep " + s.expr + "\n"
+	case 9:
+		body = "keepv " + s.expr + "\n"
+	case 10:
+		show("y := ret\n", "y")
+	case 11:
+		body = "keepa " + s.expr + "\n"
+	case 12:
+		show("c := ["+zero+"] + ["+s.expr+"]\n", "c[1]")
+	case 13:
+		show("c := [["+s.expr+"]]\nd := {k:{j:"+s.expr+"}}\n", "c[0][0]")
+		body += "print \"kept\" d.k.j n\n"
+		want += "|" + want
+	}
+	src := pre + first + "print n0\n" + body + "print err\n"
+	p := &zzPlat{}
+	ev := NewEvaluator(p)
+	err := ev.Run(src)
+	if err != nil {
+		zzLog(src + err.Error())
+	}
+	zzAssert(err == nil, "C09 err copies: scenario is accepted and runs")
+	if err != nil {
+		return
+	}
+	got := strings.Join(p.trace[1:len(p.trace)-1], "|")
+	if got != want {
+		zzLog("C09 err copies: want " + want + " got " + got + "\n" + src)
+	}
+	zzAssert(got == want, "C09 err copies: a stored copy of err / errmsg never follows a later conversion, however the value was read and wherever it was stored")
+	zzReach("errcopies-ok")
+	zzWitness("end")
+}
+
+// ZZC09Fresh: every operation that must produce a fresh array — slices with
+// every choice of bounds, concatenation with empty and non-empty operands on
+// either side (literals and variables), repetition — against the two
+// operations that share (declaration from a variable, a call that returns its
+// argument). x and the result are then updated in turn; the old and the new
+// element are symbolic numbers.
+func ZZC09Fresh() {
+	forms := []struct {
+		expr  string
+		fresh bool
+	}{
+		{"x[:]", true}, {"x[0:]", true}, {"x[:2]", true}, {"x[0:2]", true}, {"x[-2:]", true},
+		{"x + []", true}, {"[] + x", true}, {"e + x", true}, {"x + e", true}, {"e + x + e", true}, {"(e + e) + x", true},
+		{"x * 1", true}, {"x[:1] + x[1:]", true}, {"e[:] + x", true},
+		{"x", false}, {"(x)", false}, {"idarr x", false},
+	}
+	f := forms[zzChoice("form", len(forms))]
+	nested := zzChoice("nested", 2) == 1
+	a, b := zzFloat64("a"), zzFloat64("b")
+	var src string
+	if !nested {
+		src = "a := 1\nb := 2\n" + zzC09Funcs + "x := [a 2]\ne:[]num\ny := " + f.expr + "\nx[0] = b\nprint x y\ny[1] = 9\nprint x y\nprint e\n"
+	} else {
+		// an array of arrays: the operations are shallow, only repetition copies the nested arrays
+		src = "a := 1\nb := 2\nfunc idarr:[][]num p:[][]num\n    return p\nend\nx := [[a] [2]]\ne:[][]num\ny := " + f.expr + "\nx[0] = [b]\nprint x y\ny[1] = [9]\nprint x y\nprint e\n"
+	}
+	p := &zzPlat{}
+	ev := NewEvaluator(p)
+	prog := zzMustParse(ev, src, "C09 fresh")
+	if prog == nil {
+		return
+	}
+	zzSetNum(prog, 0, a)
+	zzSetNum(prog, 1, b)
+	err := ev.Eval(prog)
+	zzAssert(err == nil, "C09 fresh: scenario runs")
+	if err != nil {
+		return
+	}
+	A, B := zzN(a), zzN(b)
+	var want string
+	switch {
+	case !nested && f.fresh:
+		want = "print:[" + B + " 2] [" + A + " 2]\n|print:[" + B + " 2] [" + A + " 9]\n|print:[]\n"
+	case !nested:
+		want = "print:[" + B + " 2] [" + B + " 2]\n|print:[" + B + " 9] [" + B + " 9]\n|print:[]\n"
+	case f.fresh:
+		want = "print:[[" + B + "] [2]] [[" + A + "] [2]]\n|print:[[" + B + "] [2]] [[" + A + "] [9]]\n|print:[]\n"
+	default:
+		want = "print:[[" + B + "] [2]] [[" + B + "] [2]]\n|print:[[" + B + "] [9]] [[" + B + "] [9]]\n|print:[]\n"
+	}
+	if p.out() != want {
+		zzLog("C09 fresh " + f.expr + ": want " + want + " got " + p.out())
+	}
+	zzAssert(p.out() == want, "C09 fresh: slicing, concatenation (also with empty operands) and repetition produce fresh containers; declaration and return share")
+	zzReach("fresh-ok")
 	zzWitness("end")
 }
